@@ -932,7 +932,10 @@ func (r *envelopingReader) prepareNext() error {
 			limit := int64(r.rw.op.methodConf.maxMsgBufferBytes)
 			length := r.rw.op.contentLen
 			if length > limit {
-				return bufferLimitError(limit)
+				err := bufferLimitError(limit)
+				r.err = err
+				r.rw.reportErrorFromReader(err)
+				return err
 			}
 			r.current = &hardLimitReader{r: r.r, rw: r.rw, limit: r.rw.op.contentLen, makeError: contentLengthError}
 			env.length = uint32(length) //nolint:gosec // Length is validated above.
